@@ -54,7 +54,7 @@ def load_fns(crate="processor", features="internals", refresh=True):
 
 def struct_fields(path, name):
     src = open(path).read()
-    m = re.search(r"pub struct %s\s*(?:<[^>]*>)?\s*(?:where[^{]*)?\{" % re.escape(name), src)
+    m = re.search(r"(?:pub(?:\([^)]*\))? )?struct %s\s*(?:<[^>]*>)?\s*(?:where[^{]*)?\{" % re.escape(name), src)
     if not m:
         raise mp.Unsupported(f"struct {name} not found in {path}")
     i = m.end()
